@@ -78,6 +78,11 @@ CHECKS = {
     technique='runtime monitoring: WriteAudit (sys.addaudithook) over operation histories on one real loader incl. failing updates (loop, cross-device, injected I/O error, entry naming a directory) + full tree snapshots + offline conservation checker over Manifest lines read independently',
     text='Histories of 3..8 operations (verify, lookups, update dir/path, save, discard) on one loader, and CLI updates with/without -t and compression options, are observed by an audit hook: no write-intent event may occur before a save, a save may only touch Manifest files, no other file may change in bytes/mtime/mode or appear/vanish. After saves that followed successful updates the multisets of DIST and IGNORE lines, the TIMESTAMP lines (unless the CLI whole-tree rule applies), the type of surviving file entries and every entry outside the updated directories (except MANIFEST entries on the chain, or anywhere after a forced save) must be conserved.',
     note='Writes by child processes are invisible to the audit hook (snapshot comparison covers them). Conservation is not demanded for a save issued after an update that failed part-way, in directories with several Manifest-named files (U14), and out-of-scope comparison is skipped in trees with directory symlinks (aliased paths, U15).'),
+ 'C13': dict(
+    category='exploration', design='3 C13',
+    technique='runtime monitoring: metamorphic comparison of the real loader across all compression assignments of one logical tree; WriteAudit-identified rewritten Manifests checked against the watermark rule after real saves at and around every Manifest size',
+    text='meta: one logical tree (consistent or mutated) is rendered with all 5**k (sampled to 25 in quick) format assignments of its sub-Manifests; keep-going verification results, reported paths, find_path_entry and find_dist_entry results must be identical. wm: sequences of 2..4 saves with watermark 0 / size-1 / size / size+1 / max+1, each target format, forced or after a dirtying update: every sub-Manifest the audit hook saw rewritten must be compressed iff its uncompressed size >= watermark, compressed ones keep their format, the top-level Manifest is never compressed, one file per logical Manifest, no dangling reference, and a fresh verification succeeds.',
+    note='Trusted: independent reader/writer, the audit hook for "rewritten". Directories with several Manifest-named files are excluded (U14).'),
 }
 
 def main():
